@@ -87,6 +87,8 @@ def canon(x):
         return ('nt', t.__name__) + tuple([canon(e) for e in x])
     if isinstance(x, BaseException):
         return ('exc', t.__name__, tuple([canon(a) for a in x.args]))
+    if hasattr(x, '__canon__'):
+        return ('o', t.__name__, canon(x.__canon__()))
     if t.__name__ == 'Distogram':
         return ('dist', canon(list(x.bins)), canon(x.min), canon(x.max))
     return ('obj', t.__name__)
@@ -208,6 +210,48 @@ class EmptyFault(InjectedFault):
 
     def __len__(self):
         return 0
+
+
+# the same fault as instances of various builtin exception families: code that treats one family specially
+# (an `except OverflowError` in front of the generic handler, StopIteration inside a generator, ...) shows up
+class OverflowFault(InjectedFault, OverflowError):
+    pass
+
+
+class StopFault(InjectedFault, StopIteration):
+    pass
+
+
+class KeyFault(InjectedFault, KeyError):
+    pass
+
+
+class LookupFault(InjectedFault, LookupError):
+    pass
+
+
+class AssertFault(InjectedFault, AssertionError):
+    pass
+
+
+class TypeFault(InjectedFault, TypeError):
+    pass
+
+
+class MemoryFault(InjectedFault, MemoryError):
+    pass
+
+
+FAULT_CLASSES = [InjectedFault, EmptyFault, OverflowFault, StopFault, KeyFault, LookupFault, AssertFault, TypeFault, MemoryFault]
+
+
+def fault_class(mode, k, n):
+    """mode: falsy -> InjectedFault; 'falsy' -> every second one EmptyFault; 'types' -> rotate through the families."""
+    if mode == 'types':
+        return FAULT_CLASSES[(k * 3 + n) % len(FAULT_CLASSES)]
+    if mode and (k + n) % 2 == 0:
+        return EmptyFault
+    return InjectedFault
 
 
 class Ctx(object):
@@ -464,7 +508,10 @@ def drive_hot(ctx, build, items, end='complete', mk_item=None, driver='hot'):
     pipeline returned by build(subject).  One item = one source event.
     end: 'complete' | 'error' | 'dispose' | 'none'.
     Returns (final, escaped_exception_or_None)."""
-    _progress = sys.modules['rxsci.operators.progress']
+    _progress = sys.modules.get('rxsci.operators.progress')
+    if _progress is None or not hasattr(_progress, 'timer'):
+        class _progress(object):      # the module moved: nothing to patch (prints are captured anyway)
+            timer = None
     subject = Subject()
     final = Final(ctx)
     prev = CUR
@@ -537,8 +584,6 @@ def drive_hot(ctx, build, items, end='complete', mk_item=None, driver='hot'):
                         subject.on_error(SourceError('source failed'))
                     elif end == 'dispose':
                         disp.dispose()
-            except InjectedFault:
-                raise
             except BudgetExceeded:
                 ctx.aborted = True
             except Exception as e:  # escaped the pipeline: a behaviour of the SUT
@@ -552,6 +597,9 @@ def drive_hot(ctx, build, items, end='complete', mk_item=None, driver='hot'):
 
 def innermost_in_verif(exc):
     """True when the innermost frame of the traceback is harness code."""
+    if isinstance(exc, InjectedFault):
+        # an injected user-function failure that the system let escape instead of turning it into a mux error
+        return False
     tb = exc.__traceback__
     last = None
     while tb is not None:
